@@ -54,7 +54,10 @@ CHECKS = {
              "table of TagHandler::reference_tag (48 path/order cases incl. import level); begin/end_subcomponent pairing; "
              "variable collection sources; the tag table is evaluated with and without the tag already used elsewhere (history "
              "independence); the two component stacks (ComponentPath, tag handler) are advanced and unwound in lockstep with no early "
-             "exit between. Not decided: invariants beyond what indexer + lockstep imply.",
+             "exit between; fill_in_query_variables is evaluated with one variable used at two places (two vertices, vertex + "
+             "fold count filter, vertex + vertex inside a fold) for every ordered pair of inferred types: the recorded type is "
+             "the greatest common subtype of the uses or the incompatible-requirements error. Not decided: invariants beyond "
+             "what indexer + lockstep imply.",
         note="trusted: collection model (stdmodel.py), Type model; the indexer's checks are the definition of well-formed",
         technique="static analysis: abstract interpretation of indexer / tag handler over IR shapes + structural pairing rules",
         design_ref="DESIGN.md section 4 C11"),
@@ -74,8 +77,10 @@ CHECKS = {
              "shape containing every value that satisfies the operator (sibling tables + reference of sound shapes); "
              "hint entry points return no information before reading filters when filters do not bind; the "
              "within_optional_scope formula of every look-ahead NeighborInfo (truth table over inherited scope, "
-             "edge optionality, fold-needs-an-element); is_mandatory and fold_requires_at_least_one_element tables. "
-             "Not decided: value-level over-approximation for all inputs (that part rests on C06).",
+             "edge optionality, fold-needs-an-element); is_mandatory and fold_requires_at_least_one_element tables; the "
+             "static hint is abstractly evaluated on every set of one or two filters over a small ordered universe and must "
+             "contain every satisfying value; in dynamically_required_property the operator and the tag come from one "
+             "@filter and tags of vertices not yet computed are not used. Range/CandidateValue algebra itself rests on C06.",
         note="trusted: rustc resolution/typeck; Range/CandidateValue operations as decided under C06; one genuine "
              "defect is listed in known_findings.json (a pinned test asserts the defective hint)",
         technique="static analysis: dispatch-table and boolean-formula extraction over rustc typed HIR, provenance of struct fields",
@@ -120,7 +125,9 @@ CHECKS = {
              "move every field; per resolver the set of trace operations the recording adapter writes equals the set the "
              "replaying reader accepts (the readers end in `_ => unreachable!()`, so rustc does not check this); the recording "
              "closures return the inner adapter's items unchanged; every replay reader buffers pending input contexts first-in-"
-             "first-out (needed when the recorded adapter had several contexts in flight). Not decided: equality of rows.",
+             "first-out (needed when the recorded adapter had several contexts in flight); no RefMut of the tracer cell is alive "
+             "across a call into the wrapped adapter (a nested recording adapter call would panic on the second borrow). Not "
+             "decided: equality of rows.",
         note="trusted: Iterator::inspect/map semantics; serde round-trip of the trace (C16)",
         technique="static analysis: ADT mirror comparison + writer/reader variant-set agreement over typed HIR",
         design_ref="DESIGN.md section 4 C15"),
@@ -142,7 +149,8 @@ CHECKS = {
              "their typed AST over the algebraic model of types; lattice laws checked on the tables (meet: commutative, "
              "idempotent, lower bound, greatest, None iff shapes differ; partial order; upward-closed validity; equivalence). "
              "The operations are interpreted on the real representation (base name + modifier bit mask, the accessors' own "
-             "mask arithmetic included) and also on deep types (list depth 3, 10, 29, 30).",
+             "mask arithmetic included; base names as separately allocated Arc<str>, so a pointer-equality shortcut is not "
+             "mistaken for name equality) and also on deep types (list depth 3, 10, 29, 30).",
         note="trusted: the primitive accessors implement the algebraic view; recursion uniform in depth",
         technique="static analysis: abstract interpretation over an algebraic type model + law checking on finite tables",
         design_ref="DESIGN.md section 4 C17"),
@@ -184,7 +192,7 @@ CHECKS = {
              "reflexive/symmetric/transitive, antisymmetry, transitivity, numeric agreement on mixed integers) are "
              "checked on the table; discriminant table equals declaration order; lists (mixed Int64/Uint64 elements, nulls, "
              "nested) compare like the tuples of their numeric values.",
-        note="trusted: std integer comparison / TryFrom; floats finite; slice comparison is lexicographic over the element order",
+        note="trusted: std integer comparison / TryFrom; floats finite (both zeros included, f64::total_cmp modelled); slice comparison is lexicographic over the element order",
         technique="static analysis: abstract interpretation of the typed HIR over value classes + law checking on the finite table",
         design_ref="DESIGN.md section 4 C08"),
     "C09": dict(
@@ -199,7 +207,7 @@ CHECKS = {
              "are discharged semantically: evaluated on every operand pair the frontend admits (null on either side included) they "
              "never reach a panic.",
         note="trusted: the hand-made audit reasons; the curated list of panicking std APIs; the adapter honours its contract; "
-             "seven genuine defects are listed in known_findings.json",
+             "nine genuine defects are listed in known_findings.json (three more were repaired in /repo)",
         technique="static analysis: call-graph reachability + panic-site inventory against an audit table + structural guard rules",
         design_ref="DESIGN.md section 4 C09"),
     "C10": dict(
@@ -207,8 +215,12 @@ CHECKS = {
         text="Panic-site inventory as in C09 with entries frontend::parse / parse_to_ir (query text + schema): the reachable set "
              "of panic-capable constructs must equal the audited set; guards checked structurally (validation against the schema "
              "before lowering, root directives rejected before the root assertions, operand types validated and errors "
-             "propagated); operand_types_valid and its five validity functions are abstractly evaluated for every operator x "
-             "property type x right-hand side and never reach a panic.",
+             "propagated; the well-formedness tables of C11 re-evaluated, because later `unreachable!`s lean on them; the root "
+             "field must be an edge; duplicate vertex / output names reported before the maps that assume uniqueness are built; "
+             "string slicing only at char boundaries); operand_types_valid and its five validity functions are abstractly "
+             "evaluated for every operator x property type x right-hand side and never reach a panic; every recursive cycle "
+             "reachable from parse is inventoried and classified (bounded / one level per nesting level of the query text) - the "
+             "missing nesting limit is a listed known finding.",
         note="trusted: audit reasons made by reading; async-graphql-parser returns well-formed documents and does not panic itself",
         technique="static analysis: call-graph reachability + panic-site inventory + abstract evaluation of the operand-type validators",
         design_ref="DESIGN.md section 4 C10"),
@@ -217,9 +229,11 @@ CHECKS = {
         text="Panic-site inventory with entries Schema::parse / Schema::new (reachable set = audited set + listed known findings); "
              "Schema::new calls all seven validation passes, merges their errors and returns Ok exactly when none was reported; "
              "every InvalidSchemaError variant is still constructed (no rule silently dropped); validation loops examine every "
-             "element (early exits inside them are `return Err` or audited). Not decided: that the implemented rules are exactly "
-             "the documented ones.",
-        note="trusted: audit reasons; async-graphql-parser rejects empty documents; seven genuine panics are listed in known_findings.json",
+             "element (early exits inside them are `return Err` or audited); every name scope of a schema document has a "
+             "duplicate check (two scopes without one are listed known findings); get_field_origins waits for exactly the "
+             "implemented types it later looks up (same predicate on both sides). Not decided: that the implemented rules are "
+             "exactly the documented ones.",
+        note="trusted: audit reasons; async-graphql-parser rejects empty documents; nine genuine defects (seven panics, two missing duplicate checks) are listed in known_findings.json",
         technique="static analysis: call-graph reachability + panic-site inventory + must-call / merge path rule",
         design_ref="DESIGN.md section 4 C19"),
     "C20": dict(
@@ -241,8 +255,11 @@ CHECKS = {
              "node; coercion is called with (coerced_from_type, type_name) of one vertex and recursion re-coerces with (edge "
              "endpoint type, coerce_to); make_edge_parameters is abstractly evaluated over declared (nullable?, default?) x "
              "supplied (absent/valid/ill-typed) plus an undeclared argument: result holds exactly the declared names with explicit, "
-             "default or null values, otherwise the matching errors.",
-        note="trusted: well-formed IR (C11); Type / collection models",
+             "default or null values, otherwise the matching errors; expand_recursive_edge is abstractly evaluated for depth 1..5 x "
+             "implicit coercion x destination coercion with the context iterator abstracted to the type of its active vertices: "
+             "the type named at every resolve_neighbors / resolve_coercion equals that typestate (coerce_to only after a "
+             "suspending re-coercion before that very expansion).",
+        note="trusted: well-formed IR (C11); Type / collection models; uniformity of the recursion loop beyond depth 5",
         technique="static analysis: same-origin provenance of call arguments + abstract evaluation of edge-parameter construction",
         design_ref="DESIGN.md section 4 C21"),
     "C22": dict(
@@ -263,7 +280,9 @@ CHECKS = {
              "under test) holds the same three obligations: an outcome assertion on every yielded item inside the loop, an equality "
              "assertion on the number of contexts, and an equality assertion on the order tags of given vs received contexts; probe "
              "contexts have no active vertex and a distinct order tag from the loop variable; the items the checkers skip are "
-             "inventoried (one known finding: edges with a parameter that has no default) and a null default counts as a default. "
+             "inventoried (one known finding: edges with a parameter that has no default) and a null default counts as a default; "
+             "the property checker's probe query reaches every vertex type (the `property` edge is folded or optional, so a type "
+             "without properties does not hide the others) and adds __typename for each. "
              "Not decided: that each assertion is strong enough for every adapter.",
         note="trusted: assert macros' expansion as seen in HIR; edges with required parameters are skipped by the checker itself",
         technique="static analysis: sibling-agreement of assertion obligations over typed HIR",
@@ -278,8 +297,10 @@ CHECKS = {
              "two names of one namespace that produce one identifier are always rejected by a conflict guard that runs before "
              "generation; fixed parameter names cannot be produced from schema parameter names; every generated reference (path "
              "call, as_<variant>() method via the derive crate's own naming function) names a generated definition; the scalar "
-             "type tables agree with FieldValue's accessor signatures. Not decided: that the remaining token streams are "
-             "well-formed Rust (the three pinned stub tests compile them).",
+             "type tables agree with FieldValue's accessor signatures; for every parameter type (4 scalars x list depth <= 2 x "
+             "all nullability patterns) the declared Rust type and the type of the generated conversion expression (quote!'s token "
+             "pushes modelled as a token list, typed as a method chain) both equal the type the Trustfall type denotes. Not "
+             "decided: that the remaining token streams are well-formed Rust (the three pinned stub tests compile them).",
         note="trusted: string/char model in stdmodel.py (ASCII class behaviour of is_uppercase/to_lowercase), the frozen "
              "namespace table of generator sites, syn/quote/prettyplease; four genuine parameter-name collisions are listed in known_findings.json",
         technique="static analysis: term extraction from typed HIR + abstract interpretation of the naming helpers over character classes",
@@ -288,7 +309,7 @@ CHECKS = {
         category="other",
         text="Narrow: the value conversions and the shim wiring of the Python bindings. Complete decision table of "
              "<FieldValue as FromPyObject>::extract by abstract evaluation over one Python object per class the conversions can "
-             "distinguish (None, bools, integers at every 64-bit boundary, finite / non-finite floats, str, unsupported objects, "
+             "distinguish (None, bools, integers at every 64-bit boundary, floats: finite, +-0, subnormal, nan, +-inf; str, unsupported objects, "
              "lists incl. nested, with nulls, mixed and failing elements) against the faithful conversion; table of into_pyobject "
              "and the round trip; both From conversions with trustfall_core's FieldValue are identities (lists elementwise); "
              "arguments and rows are converted entry by entry with errors propagated as Python exceptions; every AdapterShim "
